@@ -55,10 +55,11 @@ def pick (idx pos : List Nat) : List Nat := pos.map (idx.getD · 0)
 /-- `[x for x in range(n) if x not in loc]`. -/
 def rest (n : Nat) (loc : List Nat) : List Nat := (List.range n).filter (fun x => !loc.contains x)
 
-/-- `idx` with the digits at positions `pos` overwritten by `ds` (in order). -/
-def put : List Nat → List Nat → List Nat → List Nat
-  | idx, p :: ps, d :: ds => put (idx.set p d) ps ds
-  | idx, _, _ => idx
+/-- `idx` with the digits at positions `pos` overwritten by `ds` (in order):
+position `a` gets `ds[k]` when `a = pos[k]`, and keeps `idx[a]` otherwise. -/
+def put (idx pos ds : List Nat) : List Nat :=
+  (List.range idx.length).map
+    (fun a => if pos.contains a then ds.getD (pos.idxOf a) 0 else idx.getD a 0)
 
 /-! ### tensors -/
 
@@ -153,7 +154,7 @@ def dagger (conj : α → α) (m : T α) : T α :=
 /-- `CircuitLocation.is_location(loc, n)`: distinct qudit indices below `n`.
 (Negative indices cannot be expressed; the harness maps them to `typeError` itself.) -/
 def isLocation (loc : List Nat) (n : Nat) : Bool :=
-  loc.all (· < n) && loc.eraseDups.length == loc.length
+  loc.all (· < n) && decide loc.Nodup
 
 variable [Add α] [Mul α]
 
